@@ -30,7 +30,8 @@ DISPLAYS = ['sa1', 's_1', 'S_1']
 CLIENTS = ['w1', 'w2', 'w3']
 STATES = ['ACTIVE', 'INACTIVE', 'COMPLETED', 'STATE_UNSPECIFIED']
 NAMESPACES = ['', 'user', ':a', 'a:b', 'é']
-KEYS = ['k', 'k2', '']
+# 'a:k' under the empty namespace and 'k' under ':a' would collide in any scheme that joins namespace and key
+KEYS = ['k', 'k2', '', 'a:k']
 REAL_ALGOS = ['RANDOM_SEARCH', 'GRID_SEARCH', 'QUASI_RANDOM_SEARCH']
 
 
